@@ -29,6 +29,7 @@ def run(chk):
     flagsets = [(0, "default")] if chk.tier == "quick" else [(0, "default"), (F_STRICT, "strict"), (F_UTF8, "validate_utf8")]
     r1(chk, prog, f)
     r4(chk, prog, f)
+    r7(chk, prog, f)
     for flags, name in flagsets:
         T = tokauto.get_table(prog, flags, 2)
         chk.tables[name] = {"configurations": len(T.trans), "transitions": sum(len(v) for v in T.trans.values())}
@@ -267,7 +268,117 @@ def _entry_value_ok(f, v, depth=0):
         return _entry_value_ok(f, d.ops[0], depth + 1)
     if d.op == "load":
         return True
+    if d.op in ("icmp", "and", "or", "xor", "add", "sub"):
+        # computed from the saved token text / parser fields (comparisons of loaded characters or pointers)
+        return all(_entry_value_ok(f, o, depth + 1) or o.kind in ("int", "null") for o in d.ops)
+    if d.op == "call":
+        return d.callee in ("strchr", "strrchr", "strpbrk", "memchr", "strlen", "strstr")
+    if d.op in ("getelementptr", "bitcast", "ptrtoint"):
+        return _entry_value_ok(f, d.ops[0], depth + 1)
     return False
+
+
+def r7(chk, prog, f):
+    rid = "C03.R7"
+    chk.rule(rid, "resuming inside a number: the characters the resume code looks for in the saved text to re-derive the exponent / sign "
+                  "flags are exactly the exponent markers the scanning loop itself recognises (reader and writer of the carried state agree)")
+    P = Paths(f, prog)
+    cfg = cfg_of(f)
+    # exponent markers of the scanning loop: the case group of the switch on the current character that contains 'e'
+    loop_markers = None
+    for i in f.instrs():
+        if i.op == "switch" and P.path(i.ops[0]) == "c":
+            vals = dict(i.x["cases"])
+            if ord("e") in vals and ord(".") in vals:
+                tgt = vals[ord("e")]
+                loop_markers = {v for v, l in i.x["cases"] if l == tgt}
+    chk.require(loop_markers is not None, "the number loop's switch on exponent markers was not found")
+    # the resume code: searches of the token buffer for marker characters, and character comparisons on the token buffer,
+    # between the entry of the number case and the scanning loop
+    searched = set()
+    compared = set()
+    sites = []
+    for i in f.instrs():
+        if i.op == "call" and i.callee in ("strchr", "strrchr", "memchr") and P.path(i.ops[0]).endswith("pb->buf") and i.ops[1].kind == "int":
+            if chr(i.ops[1].v % 256) in "eE+-.":
+                searched.add(i.ops[1].v % 256)
+                sites.append(i)
+        elif i.op == "call" and i.callee in ("strpbrk", "strcspn", "strspn") and P.path(i.ops[0]).endswith("pb->buf"):
+            a = i.ops[1]
+            while a.kind == "cexpr" and a.args:
+                a = a.args[0]
+            g = f.module.globals.get(a.v) if a.kind == "global" else None
+            if g is not None and g.bytes is not None:
+                searched |= set(g.bytes.rstrip(b"\0"))
+                sites.append(i)
+    if not sites:
+        chk.undecided(rid, f.name, "resume of a number", f.entry.term.locstr(), "no search of the saved number text found: the resume logic has another shape")
+        return
+    first = sites[0]
+    # region between the resume search and the scanning loop: forward from the search, backward from the loop's switch,
+    # never through the character loop's header or the re-dispatch label
+    main_header, _ = _loop_blocks(f)
+    barrier = {main_header}
+    for a, h in cfg.back_edges():
+        if len(h.preds) > 8:
+            barrier.add(h)      # the re-dispatch label (many gotos)
+    sw_block = None
+    for i in f.instrs():
+        if i.op == "switch" and P.path(i.ops[0]) == "c" and ord("e") in dict(i.x["cases"]) and ord(".") in dict(i.x["cases"]):
+            sw_block = i.block
+    fwd = set()
+    work = [first.block]
+    while work:
+        b = work.pop()
+        if b in fwd or b in barrier:
+            continue
+        fwd.add(b)
+        work.extend(b.succs)
+    bwd = set()
+    work = [sw_block]
+    while work:
+        b = work.pop()
+        if b in bwd or b in barrier:
+            continue
+        bwd.add(b)
+        work.extend(b.preds)
+    # exclude the scanning loop itself (blocks that the switch block reaches and that reach it again)
+    loop = set()
+    work = list(sw_block.succs)
+    seen = set()
+    while work:
+        b = work.pop()
+        if b in seen or b in barrier:
+            continue
+        seen.add(b)
+        work.extend(b.succs)
+    loop = {b for b in seen if b in bwd}
+    region = (fwd & bwd) - loop
+    # character comparisons against constants on bytes loaded from the token buffer inside that region
+    for i in f.instrs():
+        if i.block not in region:
+            continue
+        if i.op == "icmp" and i.x["pred"] in ("eq", "ne"):
+            for a, b in ((i.ops[0], i.ops[1]), (i.ops[1], i.ops[0])):
+                if b.kind == "int" and a.kind == "reg" and chr(b.v % 256) in "eE":
+                    d = f.defs.get(a.v)
+                    while d is not None and d.op in ("sext", "zext") and d.ops[0].kind == "reg":
+                        d = f.defs.get(d.ops[0].v)
+                    if d is not None and d.op == "load" and "pb->buf" in P.path(d.ops[0]) and cfg.dominates_block(first.block, i.block) is not None:
+                        if i.block in cfg.reachable_from(first.block):
+                            compared.add(b.v % 256)
+    sig = "exponent markers"
+    names = lambda s_: sorted(chr(x) for x in s_)
+    if searched != loop_markers:
+        chk.refuted(rid, f.name, sig, first.locstr(),
+                    "the scanning loop treats %s as exponent markers but the resume code searches the saved text for %s: a number split "
+                    "after the other marker resumes with the wrong exponent state" % (names(loop_markers), names(searched)))
+    elif compared and compared != loop_markers:
+        chk.refuted(rid, f.name, sig, first.locstr(),
+                    "the scanning loop treats %s as exponent markers but the resume code tests the last saved character only against %s: "
+                    "a number split right after %s loses the 'sign allowed' state" % (names(loop_markers), names(compared), names(loop_markers - compared)))
+    else:
+        chk.proven(rid, f.name, sig, first.locstr(), "scanning loop and resume code agree on the marker set %s" % names(loop_markers))
 
 
 def r4(chk, prog, f):
